@@ -326,3 +326,61 @@ SCENARIOS.append(Scenario("C05.rules.UnsqueezeUnsqueeze", s_unsqueeze_unsqueeze,
                           [("onnxscript/rewriter/rules/common/_basic_rules.py", "UnsqueezeUnsqueeze.check"), ("onnxscript/rewriter/rules/common/_basic_rules.py", "UnsqueezeUnsqueeze.rewrite"),
                            ("onnxscript/rewriter/_ir_utils.py", "get_singleton_value"), ("onnxscript/rewriter/_ir_utils.py", "get_numpy_value")],
                           trusted=["ONNX Unsqueeze: axes are positions in the output tensor"]))
+
+
+def s_hardswish_from_hardsigmoid(ctx):
+    """HardSwishFusionFromHardSigmoid: Mul(HardSigmoid<alpha, beta>(x), x) -> HardSwish(x).
+    T: HardSigmoid(x; a, b) = max(0, min(1, a*x + b)) with ONNX defaults a = 0.2, b = 0.5; HardSwish(x) = x * HardSigmoid(x; 1/6, 1/2).
+    A missing attribute stands for its ONNX default; the two sides agree for every x iff a = 1/6 and b = 1/2."""
+    import numpy as np
+    import onnx_ir as ir
+    from onnxscript.rewriter.rules.common import _fuse_hardswish as mod
+    from pyvc.values import SReal, SBool
+    I = Interp(ctx)
+    W = World(I)
+    x = W.value("x", dims=None, rt=[], dtype=ir.DataType.FLOAT)
+    attrs = {}
+    has_a = ctx.choose(2, "alpha attribute present") == 0
+    has_b = ctx.choose(2, "beta attribute present") == 0
+    a = ctx.const("alpha", z3.RealSort())
+    b = ctx.const("beta", z3.RealSort())
+    ctx.witness["alpha"], ctx.witness["beta"] = a, b
+    if has_a:
+        attrs["alpha"] = SReal(a)
+    if has_b:
+        attrs["beta"] = SReal(b)
+    node = W.node("HardSigmoid", [x], attrs=attrs)
+    out = node.fields["outputs"][0]
+    from .c05_rules import with_producer
+    with_producer(I, out, node)
+
+    def m_isclose(interp, p, q, rtol=1e-05, atol=1e-08, **k):
+        pt = p.t if isinstance(p, SReal) else z3.RealVal(repr(float(p)))
+        qt = q.t if isinstance(q, SReal) else z3.RealVal(repr(float(q)))
+        ab = lambda t: z3.If(t >= 0, t, -t)
+        return SBool(ab(pt - qt) <= z3.RealVal(repr(atol)) + z3.RealVal(repr(rtol)) * ab(qt))
+    I.models[np.isclose] = m_isclose
+    rule = SObj(mod.HardSwishFusionFromHardSigmoid, "rule")
+    fired = I.truth(I.call(I.getattr(rule, "check"), [None, x, out]))
+    if not fired:
+        ctx.cover("HardSwishFromHardSigmoid.check_failed")
+        return
+    r = I.call(I.getattr(rule, "rewrite"), [OpRecorder(), x, out])
+    ctx.check("C05.rules.HardSwishFusionFromHardSigmoid.replacement_is_hardswish_of_x", isinstance(r, Call) and r.op == "HardSwish" and r.args == (x,) and not r.kwargs, CL09)
+    ctx.check("C05.rules.HardSwishFusionFromHardSigmoid.a_missing_alpha_stands_for_the_operator_default_0_2_and_is_not_fused", has_a,
+              "C05: 'same outputs' — HardSigmoid without an alpha attribute computes with alpha = 0.2, not 1/6")
+    ea = a if has_a else z3.RealVal("0.2")
+    eb = b if has_b else z3.RealVal("0.5")
+    # agreement for every x  <=>  a = 1/6 and b = 1/2 (x = 1 and x = -1 are inside the linear region of both)
+    # alpha is a float32 attribute: "1/6" means the float32 nearest to 1/6 (half an ulp = 2**-27 away at most)
+    half_ulp = z3.Q(1, 2 ** 27)
+    ctx.check("C05.rules.HardSwishFusionFromHardSigmoid.fires_only_for_alpha_the_float32_of_one_sixth_and_beta_one_half",
+              z3.And(ea - z3.Q(1, 6) <= half_ulp, z3.Q(1, 6) - ea <= half_ulp, eb * 2 == 1),
+              "C05: 'A rule whose algebraic side-condition cannot be established from the model itself ... value only approximately equal ... does not fire'")
+
+
+SCENARIOS.append(Scenario("C05.rules.HardSwishFusionFromHardSigmoid", s_hardswish_from_hardsigmoid,
+                          [("onnxscript/rewriter/rules/common/_fuse_hardswish.py", "HardSwishFusionFromHardSigmoid.check"),
+                           ("onnxscript/rewriter/rules/common/_fuse_hardswish.py", "HardSwishFusionFromHardSigmoid.rewrite")],
+                          trusted=["ONNX HardSigmoid / HardSwish definitions and attribute defaults", "numpy.isclose(a, b) = |a - b| <= atol + rtol*|b|"],
+                          assumptions=["floats treated as reals"]))
